@@ -123,13 +123,18 @@ def compare_contract_result(impl: dict, model: dict, vm: C.VarMap) -> Optional[s
     if "err" in impl:
         if any(a.get("err") == impl["err"] for a in alts):
             return None
+        if any(a.get("err") == impl["err"] for a in model.get("near", [])):
+            return "TIE: float near-tie (reproduced when every LP optimum is nudged by 1e-10)"
         return f"impl {impl['err']} vs model {[a.get('err', 'ok') for a in alts]}"
     for a in alts:
         if "ok" in a and contract_close(impl["ok"], a["ok"], vm):
             return None
     import json
 
-    sa, sb = ({k: v for k, v in a.items() if k not in ("id", "alt")} for a in alts)
+    for a in model.get("near", []):
+        if ("err" in impl and a.get("err") == impl["err"]) or ("ok" in impl and "ok" in a and contract_close(impl["ok"], a["ok"], vm)):
+            return "TIE: float near-tie (reproduced when every LP optimum is nudged by 1e-10)"
+    sa, sb = ({k: v for k, v in a.items() if k not in ("id", "alt", "near")} for a in alts)
     if json.dumps(sa, sort_keys=True) != json.dumps(sb, sort_keys=True):
         return "TIE: exact ties / tolerance-band verdicts resolved in a mixed way"
     a = alts[0]
